@@ -14,6 +14,7 @@ type vfLatency struct {
 }
 
 func (h *vfLatency) ServeHTTP(w http.ResponseWriter, r *http.Request) {
+	verifYield() // the other request may complete while this one is at the backend
 	w.WriteHeader(http.StatusBadGateway)
 }
 
@@ -41,6 +42,7 @@ func VerifC18Overlap() {
 	evals := 0
 	cb.condition = func(c *CircuitBreaker) bool {
 		evals++
+		verifYield() // the other request may complete while the condition is being evaluated
 		return verifBool(verifName("cond", evals))
 	}
 	g.cb = cb
@@ -60,6 +62,12 @@ func VerifC18Overlap() {
 		serve()
 	})
 	ran := verifRunSpawned()
+	if !verifSymbolic() {
+		time.Sleep(50 * time.Millisecond) // natively the side effects run in their own goroutines
+	}
+	// two requests from standby can trip the breaker at most once: after the trip the second
+	// request is shielded or, after the fallback period, refused as the first of a recovery
+	verifAssert("two-requests-trip-at-most-once", onT.get() <= 1)
 	if verifSymbolic() {
 		verifAssert("on-tripped-once-per-transition", verifAnd(onT.n == trips, ran == trips))
 		verifAssert("one-reset-per-trip", g.resets == trips)
